@@ -264,6 +264,8 @@ def ap_batch_impl():
                          C("stakes_kept", "res is Ok ==> forall|k: TxHash| this.stakes@.contains_key(k) ==> #[trigger] res->Ok_0.stakes@.contains_key(k)", "C13", note="a batch only adds stakes: every registered stake stays registered"),
                          C("markers", "res is Ok && markers_ok(this.coins@.coins) ==> markers_kept(this.coins@.coins, res->Ok_0.coins@.coins) && markers_ok(res->Ok_0.coins@.coins)", "C19",
                            note="no transaction can spend a faucet's dedup marker (nothing hashes to its all-zero covenant hash), so an accepted batch keeps every marker"),
+                         C("supply", "res is Ok ==> forall|d: Denom| #[trigger] no_issuer(txx@, d) ==> coins_supply(res->Ok_0.coins@.coins, d) + fsum(txx@, fee_in(d)) <= coins_supply(this.coins@.coins, d)", "C01",
+                           note="C01 over the whole coin set: an accepted batch containing no issuer of d (no faucet, d not the new token of one of its transactions, no ERG mint when d is ERG) does not raise the total value of the unspent coins of d, however its transactions are ordered or combined; for MEL the fees it pays leave the coin set too (they enter fee pool and tips exactly: batch_core). lemma_batch_supply over create_next_state#supply and lemma_tx_conserves"),
                          C("hinv", "res is Ok ==> hinv(res->Ok_0)", "C09", "C18", note="chain invariants kept by an accepted batch: no coin younger than the block, no reward pseudo-coin of this or a later height, history below the height with non-zero DOSC speeds, current speed non-zero"),
                          C("errkind", "res is Err ==> !(res->Err_0 is WrongHeader)", "C06", char=True)])
 
@@ -303,6 +305,9 @@ def ap_create_next_state():
     ],
     ensures=[
         C("coins", "res is Ok ==> batch_coins(next_state.coins@.coins, res->Ok_0.coins@.coins, transactions@, relevant_coins@)", "C02", "C01", "C19", "C03"),
+        C("supply", """res is Ok && supply_hyp(next_state.coins@.coins, transactions@, relevant_coins@) ==> enumerable(res->Ok_0.coins@.coins) && forall|d: Denom| coins_supply(res->Ok_0.coins@.coins, d)
+               <= coins_supply(next_state.coins@.coins, d) + #[trigger] created_tot(transactions@, transactions@.len() as int, relevant_coins@, d) - spent_tot(transactions@, transactions@.len() as int, relevant_coins@, d)""", "C01",
+          note="C01 at the level of the whole coin set: for every denomination the total value of unspent coins moves by at most (what the batch's kept outputs carry) minus (what its inputs carried); per-transaction balance then bounds the first by the second"),
         C("frame", """res is Ok ==> res->Ok_0.network == next_state.network && res->Ok_0.height == next_state.height && res->Ok_0.history == next_state.history
                && res->Ok_0.fee_multiplier == next_state.fee_multiplier && res->Ok_0.dosc_speed == next_state.dosc_speed
                && res->Ok_0.pools == next_state.pools && res->Ok_0.stakes == next_state.stakes""", "C02", "C05", "C17"),
@@ -368,12 +373,16 @@ def mm_withdrawals_single():
     return dict(
         requires=[C("reqs", "withdrawals_pre(old(relevant_txx)@, *pool)"),
                   C("pool", "old(state).pools@.contains_key(*pool)"),
-                  C("backed", "true_sum(out_vals(old(relevant_txx)@, 0), old(relevant_txx)@.len() as int) <= old(state).pools@[*pool].liqs",
-                    note="C16 backing invariant as a precondition: the liquidity tokens redeemed in a block do not exceed the pool's recorded liquidity (PoolState::withdraw asserts it). Established step by step by deposits_result (shares <= minted) and by this function (exactly the redeemed amount is retired); the induction over histories is not mechanised"),
+                  C("fits", "true_sum(out_vals(old(relevant_txx)@, 0), old(relevant_txx)@.len() as int) <= u128::MAX",
+                    note="C09 envelope: the liquidity named by the requests fits in u128 (so the saturating total the code compares IS the total). The former precondition 'requests do not exceed the pool's liquidity' (the C16 backing invariant, which PoolState::withdraw asserts) is gone: the code now checks it itself (fix: over-redeeming requests are left unsettled)"),
                   C("fresh1", "forall|i: int| 0 <= i < old(relevant_txx)@.len() ==> !old(state).coins@.coins.contains_key(cid(#[trigger] old(relevant_txx)@[i], 1))",
                     note="state invariant assumed: a one-output withdrawal request has no coin under index 1 yet (a transaction enters the chain once)"),
                   C("inv", "old(state).coins.wf() && (spec_tip906(*old(state)) ==> counts_ok(old(state).coins@)) && origin_ok(old(state).coins@.coins)")],
-        ensures=[C("result", """exists|wl: int, wr: int| #[trigger] withdrawals_result(old(state).pools@, old(state).coins@.coins, old(relevant_txx)@, *pool, old(state).height,
+        ensures=[C("refused", """wd_refused(old(state).pools@[*pool], true_sum(out_vals(old(relevant_txx)@, 0), old(relevant_txx)@.len() as int), is_builtin_key(*pool, spec_tip(old(state).network, old(state).height, 180000)))
+                        ==> *final(state) == *old(state)""", "C09", "C16", "C15",
+                   note="requests that together name more liquidity than the pool records, or all the liquidity of a built-in pool, change nothing (they can exist: a faucet or a genesis coin may carry a liquidity-token denomination)"),
+                 C("result", """!wd_refused(old(state).pools@[*pool], true_sum(out_vals(old(relevant_txx)@, 0), old(relevant_txx)@.len() as int), is_builtin_key(*pool, spec_tip(old(state).network, old(state).height, 180000)))
+                        ==> exists|wl: int, wr: int| #[trigger] withdrawals_result(old(state).pools@, old(state).coins@.coins, old(relevant_txx)@, *pool, old(state).height,
                         final(state).pools@, final(state).coins@.coins, wl, wr)""", "C15", "C16", "C01"),
                  C("frame", "pool_phase_frame(*old(state), *final(state)) && final(state).fee_pool == old(state).fee_pool", "C15", "C17"),
                  C("inv", "final(state).coins.wf() && (spec_tip906(*old(state)) ==> counts_ok(final(state).coins@)) && origin_ok(final(state).coins@.coins) && (!spec_tip906(*old(state)) ==> final(state).coins@.counts == old(state).coins@.counts)", "C20")])
@@ -390,11 +399,11 @@ def mm_process_deposits():
 
 def mm_process_withdrawals():
     d = mm_phase("withdrawals")
-    d["requires"] = d["requires"] + [C("env", "wd_env(state.transactions@, state.pools@, state.coins@.coins, spec_tip(state.network, state.height, 180000))", note="C16 backing invariant as an envelope: see wd_env")]
+    d["requires"] = d["requires"] + [C("env", "wd_env(state.transactions@, state.pools@, state.coins@.coins, spec_tip(state.network, state.height, 180000))", note="envelope of the withdrawal phase (u128 range of the requested totals; index-1 ids of one-output requests unused): see wd_env. The C16 backing invariant is no longer part of it")]
     d["ensures"] = d["ensures"] + [
         C("exact", """exists|reqs: Seq<Transaction>, wl: spec_fn(PoolKey) -> int, wr: spec_fn(PoolKey) -> int| #[trigger] selected(state.transactions@, reqs, withdraw_pred(state)) && wd_reqs_ok(state.pools@, state.coins@.coins, reqs)
-               && #[trigger] wds_done(state.pools@, state.coins@.coins, state.height, reqs, mentioned_set(reqs), wl, wr, res.pools@, res.coins@.coins)""", "C15", "C01", "C16", "C03", "C19",
-          note="every pool named by a genuine withdrawal request is settled exactly once: exactly the redeemed liquidity is retired, payouts leave the reserves and are split pro rata"),
+               && #[trigger] wds_done(state.pools@, state.coins@.coins, state.height, reqs, wd_settled_set(reqs, state.pools@, spec_tip(state.network, state.height, 180000)), wl, wr, res.pools@, res.coins@.coins)""", "C15", "C01", "C16", "C03", "C19",
+          note="every pool named by genuine withdrawal requests that do not over-redeem (wd_refused) is settled exactly once: exactly the redeemed liquidity is retired, payouts leave the reserves and are split pro rata; over-redeeming requests and every other coin and pool are untouched"),
         C("ids", "ids_new(state.coins@.coins, res.coins@.coins)", "C20", "C02", note="withdrawal settlement introduces no coin id other than (hash of a request, 1)")]
     return d
 
